@@ -40,8 +40,11 @@ RULE = (
     "read (read, fs[t], fs[s:e], collect, icollect, collect(files=)), move "
     "(target FileSet or path, copy, convert False/True/callable, selection by "
     "period / files= as names, FileInfo or find results / filters / all, "
-    "worker_type default/thread/process) and delete (same selections, "
-    "dry_run).  Oracle = in-memory model with the harness' own name formatter "
+    "worker_type default/thread/process), delete (same selections, "
+    "dry_run) and mirror (copy all, rewrite originals with other content of "
+    "the same size, copy again to the same target).  The values of the user "
+    "placeholders contain proper prefixes of each other (A/AB, NOAA1/NOAA18) "
+    "and white / black filters name the shorter ones.  Oracle = in-memory model with the harness' own name formatter "
     "and coverage model; checked after every step: directory listing = model, "
     "untouched files byte-identical, archives open with gzip/bz2/zipfile/lzma "
     "and hold the handler output, every file reads back to the modelled value "
